@@ -105,3 +105,15 @@ def node_ok(s, n):
     """type facts of one node (what T-schema promises), usable inside quantified specs."""
     ch = s.f("_children", n)
     return z3.And(Val.is_ref(ch), s.alloc(Val.r(ch)), kind(Val.r(ch)) == KIND_LIST, s.len(Val.r(ch)) >= 0)
+
+
+def node_schema(s, n):
+    """T-schema instance for one node: its container fields are allocated objects of the right kind"""
+    out = []
+    for f, k in (("_children", KIND_LIST), ("_attributes", KIND_DICT), ("_nsmap", KIND_DICT), ("_extras", KIND_DICT)):
+        v = s.f(f, n)
+        out.append(z3.And(Val.is_ref(v), s.alloc(Val.r(v)), kind(Val.r(v)) == k))
+    out.append(s.len(s.kids(n)) >= 0)
+    out.append(Val.is_strv(s.f("_name", n)))
+    out.append(z3.Or(s.f("_content", n) == Val.none, Val.is_strv(s.f("_content", n))))
+    return z3.And(*out)
